@@ -31,6 +31,7 @@ def J(name, source, variant, cases, scenario=None, threads=4, tiers=(Q, T), **kw
 PROPS = {}
 
 PROPS['C07'] = {
+    'level_addendum': 'Additionally: state-machine parties on the callback flavour of lock requests (mutex_callback_parties), bare-coroutine releasers (bare_coroutine_programs), blocking requests through wait() and force_wait().',
     'technique': 'stress + PCT-style stall injection on a pinned thread team; overlap / exactly-once monitors; ASan, library asserts',
     'level_text': ('Held on every executed round: critical-section overlap detector, per-request once-flags, re-entrancy flags and a plain '
                    'counter protected only by the mutex, observed over >=1e5 contended rounds per quick run (1e7 thorough) with stalls injected at '
@@ -89,7 +90,7 @@ PROPS['C08'] = {
 }
 
 PROPS['C09'] = {
-    'level_addendum': 'Additionally: std::string items pushed as temporaries / moved lvalues / kept lvalues, a non-coroutine consumer (call_fn_future_awaiter) that re-enters the queue from its completion, and long runs of 150-600 operations on one queue.',
+    'level_addendum': 'Additionally: std::string items pushed as temporaries / moved lvalues / kept lvalues, a non-coroutine consumer (call_fn_future_awaiter) that re-enters the queue from its completion, and long runs of 150-600 operations on one queue. Further: the documented single-consumer configuration (single_item_queue), in-place (count, char) pushes with a pop possibly waiting.',
     'technique': 'recorded operation histories vs executable reference queue model; unique item ids for exactly-once / order in MT stress rounds',
     'level_text': ('Single-thread histories over push/pop/unblock_pop/size/empty/destroy (raw futures and coroutine consumers, normal and coroutine '
                    'mode) are compared with a 30-line reference model after every step; multi-threaded closed rounds (1-3 producers x 1-3 consumers, '
@@ -111,7 +112,7 @@ PROPS['C09'] = {
     ],
 }
 PROPS['C10'] = {
-    'level_addendum': 'Additionally: the std::string, callback-consumer and long-run (limits up to 100) variants of the C09 scenarios on the bounded queue.',
+    'level_addendum': 'Additionally: the std::string, callback-consumer and long-run (limits up to 100) variants of the C09 scenarios on the bounded queue. Further: user-supplied ring item container of capacity = limit; blocked in-place pushes.',
     'technique': 'exhaustive short histories + random histories vs executable reference model of the statement; MT conservation rounds',
     'level_text': ('The reference model encodes exactly the statement (push completes at once while fewer than limit items wait or a consumer '
                    'waits, otherwise parks with its item; each pop admits the oldest parked item; unblock_push fails the oldest parked push and '
@@ -134,7 +135,7 @@ PROPS['C10'] = {
 }
 
 PROPS['C12'] = {
-    'level_addendum': 'Additionally: long manual-mode runs (150-600 operations, a hundred and more pending sleeps on one scheduler).',
+    'level_addendum': 'Additionally: long manual-mode runs (150-600 operations, a hundred and more pending sleeps on one scheduler). interval(): stop requested during a pending tick, between two ticks, and before the first tick.',
     'technique': 'history vs reference multiset (manual mode), virtual-clock trace oracle (single thread), real-clock stress with quiescence hang detection',
     'level_text': ('Three layers: (1) manual-mode histories over sleep_until/get_expired/cancel/remove/destroy with small, equal, past time points '
                    'and reused identifiers, compared with a reference multiset of pending sleeps after every step; (2) scheduler::start(awaitable) '
@@ -161,7 +162,7 @@ PROPS['C12'] = {
 }
 
 PROPS['C17'] = {
-    'level_addendum': "Additionally: shared_future<std::string> and shared_future built from an operation returning future<T&> (all copies observe the resolver's object; the shared state constructs and destroys nothing).",
+    'level_addendum': "Additionally: shared_future<std::string> and shared_future built from an operation returning future<T&> (all copies observe the resolver's object; the shared state constructs and destroys nothing). Further: 1-13 awaiters x four resolver kinds, lvalue resolver whose copy throws.",
     'technique': 'stress rounds (resolver vs copy/await/wait/drop threads) with instance-counted payload, once-flags, ASan/LSan; ST histories',
     'level_text': ('Every observer of every copy must see exactly the resolver\'s payload, every awaiter is released exactly once (once-flags), the '
                    'instance-counted stored value is back to the baseline count after the last handle is gone and the promise is resolved (destroyed '
@@ -193,7 +194,7 @@ _FUT_RULE = ('case = one team round on a fresh future<T>/promise<T> (T drawn fro
              'calls or >=1 waiter. Distinct = (T, action multiset, winner action, per waiter kind x {found ready, parked, lost subscribe CAS to '
              'ready}, chain length walked by the resolver).')
 PROPS['C01'] = {
-    'level_addendum': "Additionally: contenders use every equivalent promise entry point (operator(), set_value, set_exception, unhandled_exception); std::string payloads through six argument forms (a losing call and an lvalue argument leave the caller's object intact, every reader sees the full text).",
+    'level_addendum': "Additionally: contenders use every equivalent promise entry point (operator(), set_value, set_exception, unhandled_exception); std::string payloads through six argument forms (a losing call and an lvalue argument leave the caller's object intact, every reader sees the full text). Results are also read through the const overload of value(); a coroutine started into the contended promise (async::start(promise&)) is one of the competing resolvers.",
     'technique': 'stress + stall injection on a pinned thread team; boundary oracles on call results, future state (read twice), instance counters; ASan/UBSan',
     'level_text': ('On every executed round exactly one competing call reported success (or none when nobody called), every other call reported '
                    'failure and did not consume its move-only argument, the future holds exactly the winner\'s payload (address identity for int&), '
@@ -216,7 +217,7 @@ PROPS['C01'] = {
     ],
 }
 PROPS['C02'] = {
-    'level_addendum': "Additionally: bystander coroutines queued on the waiter's thread while it registers, a waiter that is a foreign (non-library) coroutine, and 1-13 coroutine waiters released by every resolver kind (future_many_waiters).",
+    'level_addendum': "Additionally: bystander coroutines queued on the waiter's thread while it registers, a waiter that is a foreign (non-library) coroutine, and 1-13 coroutine waiters released by every resolver kind (future_many_waiters). Further: two resolutions gathered in one suspend point (assignment / merge), bare-coroutine waiters.",
     'technique': 'stress + stall injection; per-waiter once-flags, ready()-at-release and payload checksum oracles; quiescence watchdog for lost wake-ups; ASan',
     'level_text': ('Every waiter of every executed round was released exactly once, found ready()==true and the complete expected result when it ran, '
                    'and no blocking waiter stayed blocked at quiescence. The evidence counts waiters per interleaving class (found ready / parked before '
@@ -266,7 +267,7 @@ PROPS['C03'] = {
 }
 
 PROPS['C05'] = {
-    'level_addendum': 'Additionally: bare coroutines resumed by ordinary code (no ready queue active) that wake coroutines through promises and queue pushes, discarding or awaiting the suspend points (bare_coroutine_programs).',
+    'level_addendum': 'Additionally: bare coroutines resumed by ordinary code (no ready queue active) that wake coroutines through promises and queue pushes, discarding or awaiting the suspend points (bare_coroutine_programs). Bare coroutines also release coroutine mutexes; script step co_await [resolve + own handle].',
     'technique': 'per-thread event trace of scripted coroutines replayed against a reference simulation of the ready queue (online trace checker)',
     'level_text': ('Random programs of 1-14 scripted coroutines (spawn+detach discarded/awaited, co_await child, pause, promise resolution discarded/'
                    'awaited, future await, mutex lock/unlock discarded/awaited, queue push/pop) log BEGIN/END/FINISH of every step; the trace is '
@@ -294,7 +295,7 @@ PROPS['C05'] = {
     ],
 }
 PROPS['C06'] = {
-    'level_addendum': 'Additionally: a third driver mode (bare coroutine resumed by ordinary code) and flushes that run in destructors during exception unwinding.',
+    'level_addendum': 'Additionally: a third driver mode (bare coroutine resumed by ordinary code) and flushes that run in destructors during exception unwinding. suspend_point<std::string> read four ways.',
     'technique': 'operation histories on suspend_point objects vs reference multiset; resumption counters in probe coroutines; exhaustive short sequences; ASan/LSan',
     'level_text': ('Every handle handed to a suspend point is a probe coroutine that counts its resumptions. After every operation (construct, << handle, '
                    '<< suspend_point, move-construct, move-assign, pop, clear, co_await, typed construct/merge, destruction) the counters and size()/'
@@ -316,7 +317,7 @@ PROPS['C06'] = {
 }
 
 PROPS['C04'] = {
-    'level_addendum': 'Additionally: thread-pool start on an already stopped pool (never runs, broken promise, arguments destroyed once) and std::string results (co_return of locals, members, references) in four start modes.',
+    'level_addendum': 'Additionally: thread-pool start on an already stopped pool (never runs, broken promise, arguments destroyed once) and std::string results (co_return of locals, members, references) in four start modes. Further: start() from inside a coroutine followed by force_sync(); body outcomes of a user type derived from await_canceled_exception.',
     'technique': 'generated start-mode x completion-mode programs with body counters, instance-counted arguments/locals/results, ASan/LSan, quiescence watchdog',
     'level_text': ('Full cross product start mode {detach discarded/awaited, start(), start(promise&), start(promise&&), start(claimed promise), co_await, '
                    'join(), future<T>(async), future<T>-returning coroutine, thread_pool::run, never started} x completion {immediate value/throw, '
@@ -369,7 +370,7 @@ PROPS['C20'] = {
 }
 
 PROPS['C11'] = {
-    'level_addendum': 'Additionally: co_await pool(awaitable) with the awaited operation already complete, completed later, or completed by a peer thread while the coroutine registers.',
+    'level_addendum': 'Additionally: co_await pool(awaitable) with the awaited operation already complete, completed later, or completed by a peer thread while the coroutine registers. Chains of dependent jobs are also submitted from a worker thread of the same pool.',
     'technique': 'stress rounds on a fresh pool racing submissions against stop()/destruction; per-job (ran, cancelled) counters, worker identity, quiescence watchdog',
     'level_text': ('Every round builds a fresh pool of 1-3 workers; 1-2 threads submit 1-3 jobs each of kinds {co_await pool, co_await pool(awaitable), '
                    'run(fn), run(async), run_detached, resume(suspend_point), co_await thread_pool::current()} while stop() is issued by the '
@@ -398,7 +399,7 @@ PROPS['C11'] = {
 }
 
 PROPS['C16'] = {
-    'level_addendum': "Additionally: publisher<std::string> (single, moved, batch publishing; caller's objects intact) and long runs (150-600 operations, retention up to 80 values, up to 280 subscribers).",
+    'level_addendum': "Additionally: publisher<std::string> (single, moved, batch publishing; caller's objects intact) and long runs (150-600 operations, retention up to 80 values, up to 280 subscribers). Further: publisher_lag_mt (bounded publisher<std::string>, subscriber riding the tail edge of the retention window while another thread publishes); batches from input iterators.",
     'technique': 'operation histories vs reference stream model (single thread); MT rounds with contiguity / bounds oracles on unique ids; ASan',
     'level_text': ('Single-thread histories over publish (single, batch), subscribe (recent, at a retained position, by copy - also of a parked '
                    'subscriber), next (awaited by a coroutine, blocking, next_ready), kick (both forms), leave, close and publisher destruction, for '
@@ -454,7 +455,7 @@ PROPS['C15'] = {
 }
 
 PROPS['C13'] = {
-    'level_addendum': 'Additionally: a consumer that is one coroutine for the whole sequence, and next() result objects that are kept and asked more than once.',
+    'level_addendum': 'Additionally: a consumer that is one coroutine for the whole sequence, and next() result objects that are kept and asked more than once. Further: next()+value() from inside a coroutine consumer for bodies that never wait; bodies that let await_canceled_exception escape.',
     'technique': 'scripted generator bodies vs recorded consumer observations (reference sequence); instance-counted locals; two-thread completion with stalls; ASan',
     'level_text': ('Body scripts over {yield v, await a ready future, await a pending future, throw, return} for generator<int> and generator<int,int> '
                    '(argument read through co_yield nullptr and every co_yield). The consumer picks the access style independently per step from '
@@ -480,7 +481,7 @@ PROPS['C13'] = {
     ],
 }
 PROPS['C14'] = {
-    'level_addendum': 'Additionally: a consumer that is one coroutine for the whole sequence (its ready queue stays active between the calls).',
+    'level_addendum': 'Additionally: a consumer that is one coroutine for the whole sequence (its ready queue stays active between the calls). Sources that end with await_canceled_exception must be reported like any other exception.',
     'technique': 'scripted source generators with unique ids vs recorded aggregate output (multiset union, per-source order, end/exception, argument routing); ASan/LSan',
     'level_text': ('0-5 scripted sources (finite or 40-yield "infinite", synchronous or awaiting pending futures completed by the consumer or a helper '
                    'thread, possibly throwing), aggregated; the consumer uses every access style per step. Oracle: every consumed id belongs to a '
@@ -522,7 +523,7 @@ PROPS['C18'] = {
 }
 
 PROPS['C19'] = {
-    'level_addendum': 'Additionally: 6 and 10 KB frames on stack storage and 3/16/24-byte buffer elements, each with a containment check (frame wholly inside the offered block / buffer).',
+    'level_addendum': 'Additionally: 6 and 10 KB frames on stack storage and 3/16/24-byte buffer elements, each with a containment check (frame wholly inside the offered block / buffer). Further: odd-sized extra objects over the reusing policies (exposed D21), self move assignment of reusable_storage.',
     'technique': 'monitoring wrapper around every library storage policy (live-frame interval table, pairing), frame canaries, global new/delete accounting; ASan/UBSan; two-thread rounds',
     'level_text': ('monitored<S> wraps default_storage, reusable_storage, reusable_storage_mtsafe, stack_storage (alloca, heap fallback), placement_alloc, '
                    'reusable_buffer_storage and promise_extra_storage: every frame handed out is entered in a live-interval table (no two live '
